@@ -238,7 +238,7 @@ pub fn run(ctx: &RunCtx) -> i32 {
         println!("VIOLATION property={} replay={}", ctx.id, path);
         return 1;
     }
-    let (stats, failure) = run_parts(ctx, ctx.tier.pick(40_000, 400_000), ctx.tier.pick(20_000, 200_000));
+    let (stats, failure) = run_parts(ctx, ctx.tier.pick(40_000, 2_000_000), ctx.tier.pick(20_000, 1_000_000));
     write_evidence(
         ctx,
         "exploration",
